@@ -104,7 +104,7 @@ theorem enqFlow_step (s : BSt) (a : Nat) (st : Stmt) (cont : Nat) (first initial
       · show asum s2 = asum s
         rw [t6, e4]; simp
 
-theorem Step.recont {c : Nat} {s s' : BSt} {t : String} (h : Step c s s' t) (h0 : c ≠ 0) (h5 : c ≠ 5) (c' : Nat := 5) :
+theorem Step.recont {c : Nat} {s s' : BSt} {t : String} (h : Step c s s' t) (h0 : c ≠ 0) (h5 : c ≠ 5) {c' : Nat} :
     Step c' s s' t := by
   refine ⟨h.drp, h.log, h.aok, ?_⟩
   cases h.out with
@@ -139,8 +139,10 @@ def contOf (s : BSt) : FOp → Nat
     match ((s.actor a).map (·.pend) : Option Pend) with
     | some (Pend.stall _ c) => c
     | some (Pend.retry _ c) => c
-    | _ => 5
-  | _ => 5
+    | _ => 1
+  | .logNamed .. => 5
+  | .logBt .. => 5
+  | _ => 1
 
 theorem resume_step (s : BSt) (a : Nat) (hd : s.cfg.dropping = true) (ha : AOK s) :
     Step (contOf s (.resume a)) s (resume s a).1 (resume s a).2 := by
